@@ -91,6 +91,7 @@ int main(int argc, char** argv)
     std::map<int, std::unique_ptr<sym_t>> syms;
     std::map<int, std::shared_ptr<void>> handles; // copies of dl::get()
     std::map<int, std::function<double(double)>> fns; // symbols stored in std::function objects
+    std::vector<nitro::dl::exception> kept;           // exceptions whose diagnostic is read later
     std::string line;
     while (std::getline(std::cin, line))
     {
@@ -106,6 +107,7 @@ int main(int argc, char** argv)
                 syms.clear();
                 handles.clear();
                 fns.clear();
+                kept.clear();
                 begin_case(w, 20.0);
             }
             else if (c == "END")
@@ -114,7 +116,13 @@ int main(int argc, char** argv)
                 fns.clear();
                 handles.clear();
                 dls.clear();
-                out("X ok");
+                {
+                    std::string kd;
+                    for (auto& k : kept)
+                        kd += (kd.empty() ? "" : ",") + hex(k.dlerror());
+                    kept.clear();
+                    out("X ok KD=" + kd);
+                }
                 end_case();
             }
             else if (c == "MODE")
@@ -318,7 +326,16 @@ int main(int argc, char** argv)
         }
         catch (nitro::dl::exception& e)
         {
-            out(std::string(1, c[0]) + " !dl::exception " + hex(e.dlerror()) + " " + hex(e.what()));
+            // every second exception is KEPT (a copy) and its diagnostic is read only at the end of the history,
+            // after the loader has been used again: it must still be the diagnostic of ITS failure
+            static unsigned long raised = 0;
+            if (raised++ % 2 == 1)
+            {
+                kept.emplace_back(e);
+                out(std::string(1, c[0]) + " !dl::exception DEFERRED " + hex(e.what()));
+            }
+            else
+                out(std::string(1, c[0]) + " !dl::exception " + hex(e.dlerror()) + " " + hex(e.what()));
         }
         catch (std::exception& e)
         {
